@@ -68,6 +68,15 @@ void Executor::op_optimize(const Op& op, TaskCtx& t) {
       else { s.setReal(P::r("objlimit_lower"), lim); o->pm.r[P::r("objlimit_lower")] = lim; }
     }
   }
+  o->free_row_nonbasic = false;
+  if (s.hasBasis()) { double fi = s.getReal(P::r("infty")); for (int i = 0; i < s.numRows(); i++) if (s.lhs(i) <= -fi && s.rhs(i) >= fi && s.basisRowStatus(i) != sut::VS_BASIC) o->free_row_nonbasic = true; }
+  if (s.getInt(P::i("scaler")) == 5) {
+    // known finding: the least-squares scaler reads uninitialised memory / crashes on an LP with an empty row or column
+    bool empty = false;
+    for (int i = 0; i < o->lp.nrows() && !empty; i++) { bool nz = false; for (auto& v : o->lp.A[i]) if (v != 0) nz = true; if (!nz) empty = true; }
+    for (int j = 0; j < o->lp.ncols() && !empty; j++) { bool nz = false; for (int i = 0; i < o->lp.nrows(); i++) if (o->lp.A[i][j] != 0) nz = true; if (!nz) empty = true; }
+    if (empty && known_skip("C09", "leastsq_scaler_empty_vector", {{"scaler", "5"}})) { s.setInt(P::i("scaler"), 2); o->pm.i[P::i("scaler")] = 2; }
+  }
   bool guard_ref = false;
   if (rational && s.getInt(P::i("reflimit")) < 0) {
     // bound the cost of one exact solve; without reconstruction and factorization the refinement loop has no finite termination
@@ -94,6 +103,7 @@ void Executor::op_optimize(const Op& op, TaskCtx& t) {
   if (guard_ref) { s.setInt(P::i("reflimit"), -1); o->pm.i[P::i("reflimit")] = -1; }
   if (is_abort(st)) o->stopped_since_change = true;
   else if (is_final(st)) { o->stopped_since_change = false; }
+  if (is_final(st)) o->modified_since_solve = false;
 }
 
 static bool is_rational_mode(sut::Sut& s) {
@@ -161,7 +171,8 @@ void Executor::check_after_optimize(Obj& o, const Op& op, int st, bool flag_was_
   bool complete = !anyArmed && t.bug_mask == 0 && !t.cap_hit;
   if (is_final(st) || complete) {
     if (rational) { if (opt_.want("C03") && exact_tols) check_verdict_rational(o, st, complete && !guard_ref); }
-    else if (opt_.want("C01") || opt_.want("C02") || opt_.want("C16") || opt_.want("C09")) check_verdict_real(o, st, complete && !bugs_fired, o.stopped_since_change ? "C16" : nullptr);
+    else if (opt_.want("C01") || opt_.want("C02") || opt_.want("C16") || opt_.want("C09") || opt_.want("C06")) { std::vector<std::string> also; if (o.stopped_since_change) also.push_back("C16"); if (o.modified_since_solve && o.optimize_calls > 1) also.push_back("C06"); if (s.peekIsRealLPScaled() || (s.getInt(P::i("scaler")) != 0)) also.push_back("C09");
+      check_verdict_real(o, st, complete && !bugs_fired, also); }
   }
   // ---------------- C16 (d): resume reaches what an uninterrupted solve reaches
   if (opt_.want("C16") && o.stopped_since_change && !anyArmed && !t.cap_hit) {
@@ -213,8 +224,9 @@ int Executor::twin_solve(Obj& o, TaskCtx& t, double* objval) {
 }
 
 // ------------------------------------------------------------------ real-mode verdicts
-void Executor::check_verdict_real(Obj& o, int st, bool complete, const char* resume_prop) {
+void Executor::check_verdict_real(Obj& o, int st, bool complete, const std::vector<std::string>& also) {
   auto& s = *o.s;
+  if (s.numCols() == 0) { count("empty_lp_not_judged"); return; }
   const model::RefResult& ref = ref_of(o, false);
   if (ref.status == model::REF_UNKNOWN) { count("ref_unknown"); return; }
   LP img = real_image(o.lp);
@@ -222,7 +234,9 @@ void Executor::check_verdict_real(Obj& o, int st, bool complete, const char* res
   model::Tol tol; tol.feas = std::max(s.getReal(P::r("feastol")), 1e-9); tol.opt = std::max(s.getReal(P::r("opttol")), 1e-9);
   bool robust = ref.margin >= 1e-4;
   const char* p1 = "C01"; const char* p2 = "C02";
-  auto both = [&](const char* prop, const char* oracle, const std::string& d) { viol(prop, oracle, d, ctx); if (resume_prop) viol(resume_prop, (std::string("resume_") + oracle).c_str(), d, ctx); };
+  auto both = [&](const char* prop, const char* oracle, const std::string& d) {
+    viol(prop, oracle, d, ctx);
+    for (auto& a : also) { const char* pre = a == "C16" ? "resume_" : a == "C06" ? "warmstart_" : "scaled_"; viol(a.c_str(), (std::string(pre) + oracle).c_str(), d, ctx); } };
   if (st == sut::ST_OPTIMAL) {
     count("verdict_checked_optimal");
     if (ref.status != model::REF_OPTIMAL) { if (robust) both(p2, "optimal_without_optimum", std::string("OPTIMAL returned, exact reference says ") + model::ref_name(ref.status)); else count("fragile_skipped"); return; }
@@ -231,8 +245,8 @@ void Executor::check_verdict_real(Obj& o, int st, bool complete, const char* res
     if (!gp || !gs || !gd || !gr) { both(p1, "optimal_without_vectors", "a solution vector getter returned false after OPTIMAL"); return; }
     if (!finite_all(x) || !finite_all(sl) || !finite_all(y) || !finite_all(rc)) { both(p1, "nonfinite_solution", "non-finite entry in a solution vector"); return; }
     std::vector<Q> xq = toQ(x), sq = toQ(sl), yq = toQ(y), rq = toQ(rc);
-    if (!model::tol_primal(img, xq, &sq, tol, &why)) { both(p1, "primal_infeasible", why); return; }
-    if (!model::tol_dual(img, yq, &rq, tol, &why)) { both(p1, "dual_infeasible", why); return; }
+    if (!model::tol_primal(img, xq, &sq, tol, &why)) { both(p1, why.compare(0, 9, "slack!=Ax") == 0 ? "slack_not_activity" : "primal_infeasible", why); return; }
+    if (!model::tol_dual(img, yq, &rq, tol, &why)) { both(p1, why.compare(0, 7, "redcost") == 0 && why.find("!=") != std::string::npos ? "redcost_not_stationary" : "dual_infeasible", why); return; }
     if (!model::tol_gap(img, xq, yq, tol, &why)) { both(p1, "complementarity", why); return; }
     double z = ref.z.get_d(), ov = s.objValue(), cx = model::objective(img, xq).get_d();
     double otol = (tol.feas + tol.opt) * 10 * (1 + fabs(z) + ref.dualnorm * 1.0);
